@@ -142,6 +142,22 @@ CHECKS["C14"] = dict(
     ref="6/C14",
 )
 
+CHECKS["C10"] = dict(
+    text="PARTIAL by design (process death, pipes, sentinels and signals are runtime behaviour): over the Lean model of loky's "
+    "_ExecutorManagerThread loop and of get_reusable_executor: death_wakes_manager, death_stays_visible, "
+    "dead_worker_unblocks_manager_partial, terminate_broken_resolves_all, broken_resolves_all_partial, no_wrong_results, "
+    "manager_never_crashes, heal(_for_every_history), fault_charged_to_pending_only, idle_death theorems, and the F15 hazard as a "
+    "reachable state from which the manager stays blocked forever; fault-injection runs on the real loky backend (victim, signal, "
+    "kill instant placed by pickling hooks) compared with the model's outcome classes and judged by an oracle (prompt "
+    "worker-termination error or correct results; next call healthy; at most one call fails per fault).",
+    note="the _partial theorems assume no worker dies between the first and the last byte of its result message (F15, known "
+    "finding, reproduced in the thorough tier only); the model cannot exhibit wall-clock latency, OS scheduling of the manager "
+    "thread, bytes inside a message, EOF on the result pipe, process start-up; racy schedules are tied by membership in the model's "
+    "trace set and by outcome class.",
+    technique="Lean 4 proof (invariant of the manager event loop; reusable-executor decision) + fault-injection outcome-class correspondence",
+    ref="6/C10",
+)
+
 NOT_BUILT = "check not built yet in this round (planned: see DESIGN.md section 6); not claimed"
 NOT_APPLICABLE = {}
 
